@@ -141,14 +141,16 @@ func (s *State) unpoison(v Value) {
 }
 
 func (s *State) notePoison(p Ptr, o *Obj) {
-	s.recordViolation("use-after-put", "read of an object after it was returned to a sync.Pool"+s.where())
+	// recorded, and turned into an assertion only by harnesses that ask (zzPoisonClean)
+	if len(s.poisonHits) < 4 {
+		s.poisonHits = append(s.poisonHits[:len(s.poisonHits):len(s.poisonHits)], "read of a pooled object after it was Put"+s.where())
+	}
 }
 
 func zzPoisonClean(s *State, a []Value) Value {
-	for _, v := range s.Viol {
-		if v.Label == "use-after-put" || v.Label == "pool-double-put" {
-			return false
-		}
+	if len(s.poisonHits) > 0 {
+		s.Log = append(s.Log, "discipline: "+s.poisonHits[0])
+		return false
 	}
 	return true
 }
@@ -321,4 +323,41 @@ func zzOpaqueInit(s *State, a []Value) Value {
 		s.W.Job.opaque = append(s.W.Job.opaque, s.resolveIface(e))
 	}
 	return nil
+}
+
+// ---- package-level constants must stay constant (C05/C06) ----
+
+func init() {
+	intrinsics["zzGlobalsMark"] = zzGlobalsMark
+	intrinsics["zzGlobalsUnchanged"] = zzGlobalsUnchanged
+}
+
+func (s *State) constGlobalObjs() map[int]bool {
+	seen := map[int]bool{}
+	for g, id := range s.W.P.globalID {
+		name := g.Name()
+		if strings.HasPrefix(name, "zz") || name == "parser" || name == "parseMutex" || strings.HasSuffix(name, "SyncPool") || name == "init$guard" {
+			continue
+		}
+		s.reachObj(id, seen)
+	}
+	return seen
+}
+
+func zzGlobalsMark(s *State, a []Value) Value {
+	s.globSnap = map[int]string{}
+	for id := range s.constGlobalObjs() {
+		s.globSnap[id] = s.objDigest(id)
+	}
+	return nil
+}
+
+func zzGlobalsUnchanged(s *State, a []Value) Value {
+	for id, d := range s.globSnap {
+		if s.objDigest(id) != d {
+			s.Log = append(s.Log, fmt.Sprintf("global state changed: object %d (%s) %s -> %s", id, s.heap.get(id).Tag, d, s.objDigest(id)))
+			return false
+		}
+	}
+	return true
 }
